@@ -144,7 +144,7 @@ func runSiot(stdin []byte, args ...string) ([]byte, string, error) {
 func runC15(tier string, _ []string) int {
 	c := vlib.NewCtx("C15", tier, "exploration")
 	vlib.SetPortBlock(15)
-	c.SetRule("per case: a generated tree (depth <=5, fan-out <=6, <=60 nodes, mirrors inside the tree, deleted children, tombstoned points, keys ''/'0'/index/map keys, nodeID cross-references inside and outside the tree, live and tombstoned) whose point texts come from a pool of YAML-significant / Unicode / control / multi-line strings and whose values cover integers, fractions, exponents and +-Inf, built on a live instance; ExportNodes (the result is held while three more exports are made and must not change) then ImportNodes (same parent, other parent, root of a second instance; with and without preserveIDs; over the original after it has been deleted, ids preserved: it must be back alive); the imported subtree is read back and compared with the source by matching nodes through a unique marker point: shape, types, point multisets (type, key ''=='0', value, text, tombstone), edge points (tombstone 0 == absent), id map bijective and applied to nodeID texts, ' (import)' on the top description only, deleted nodes absent; in every second case without id preservation the same bytes are imported a second time next to the first copy and compared again. Every third tree carries one text of 66-130 KiB on its top node; every sixth case exports and imports through the siot command line tool (built from the same tree): its export must be byte for byte the library's, and what its import creates is compared like any other copy. distinct = (text classes present, value classes present, target kind, preserveIDs)")
+	c.SetRule("per case: a generated tree (depth <=5, fan-out <=6, <=60 nodes; every tenth tree has 520-670 more children below its top node, three of them deleted; mirrors inside the tree, deleted children, tombstoned points, keys ''/'0'/index/map keys, nodeID cross-references inside and outside the tree, live and tombstoned) whose point texts come from a pool of YAML-significant / Unicode / control / multi-line strings and whose values cover integers, fractions, exponents and +-Inf, built on a live instance; ExportNodes (the result is held while three more exports are made and must not change) then ImportNodes (same parent, other parent, root of a second instance; with and without preserveIDs; over the original after it has been deleted, ids preserved: it must be back alive); the imported subtree is read back and compared with the source by matching nodes through a unique marker point: shape, types, point multisets (type, key ''=='0', value, text, tombstone), edge points (tombstone 0 == absent), id map bijective and applied to nodeID texts, ' (import)' on the top description only, deleted nodes absent; in every second case without id preservation the same bytes are imported a second time next to the first copy and compared again. Every third tree carries one text of 66-130 KiB on its top node; every sixth case exports and imports through the siot command line tool (built from the same tree): its export must be byte for byte the library's, and what its import creates is compared like any other copy. distinct = (text classes present, value classes present, target kind, preserveIDs)")
 	c.Assume("times, origins and data are not compared (import re-stamps; the property lists type, key, value, text, tombstone)")
 	nTrees := c.N(30, 500)
 	vlib.Parallel(nTrees, 5, func(i int) {
@@ -295,6 +295,26 @@ func runC15(tier string, _ []string) int {
 		if err := build(top, 0); err != nil {
 			c.Violate("store:legal-write-refused", err.Error(), nil)
 			return
+		}
+		if i%10 == 7 {
+			// scale: one node with several hundred children (more than any page, batch or listing of a few
+			// hundred would hold), a few of the early ones deleted
+			nKids := 520 + r.Intn(150)
+			for k := 0; k < nKids; k++ {
+				ch, err := mk(top.ID, 1)
+				if err != nil {
+					c.Violate("store:legal-write-refused", err.Error(), nil)
+					return
+				}
+				if k == 3 || k == 57 || k == 411 {
+					if err := send(vlib.EdgeSubj(ch.ID, top.ID), data.Points{{Type: data.PointTypeTombstone, Time: now(), Value: 1}}); err != nil {
+						c.Violate("store:legal-write-refused", err.Error(), nil)
+						return
+					}
+					deleted[ch.ID] = true
+				}
+			}
+			usedT["many-children"] = true
 		}
 		// cross references and mirrors
 		var live []string
